@@ -36,6 +36,10 @@ def shard(args):
     return fails, st.export()
 
 def main():
+    import subprocess
+    # never survey with a stale worker
+    subprocess.run(["cargo", "build", "--profile", "verif", "--offline"], cwd=os.path.join(os.path.dirname(__file__), "..", "harness"),
+                   stdout=subprocess.DEVNULL, stderr=subprocess.DEVNULL)
     pid, n = sys.argv[1], int(sys.argv[2])
     sd = int(sys.argv[3]) if len(sys.argv) > 3 and sys.argv[3].isdigit() else 0
     nofixed = "--nofixed" in sys.argv
